@@ -306,6 +306,42 @@ def parseL (cs : List Char) : PyM Requirement :=
 
 def parse (text : String) : PyM Requirement := parseL text.toList
 
+/-! ### the public constructor since repo fix 9ad3a46
+
+`Requirement.__init__` runs its whole body under `try: … except RecursionError: raise InvalidRequirementError`
+(deeply nested input, and the `RecursionError` that `detect_recursion` raises inside the marker simplifier).  The
+un-guarded `ofRaw` / `parseL` / `parse` above are kept as they are (the proofs unfold them); only the error class differs
+(`parseTop_ok_iff`). -/
+
+/-- `except RecursionError: raise <the documented ValueError subclass>` -/
+def guardRecursion {α : Type} (r : PyM α) : PyM α :=
+  match r with
+  | .error .recursion => .error .value
+  | r => r
+
+theorem guardRecursion_ok_iff {α : Type} (r : PyM α) (a : α) : guardRecursion r = .ok a ↔ r = .ok a := by
+  unfold guardRecursion
+  cases r with
+  | ok x => simp
+  | error e => cases e <;> simp
+
+theorem guardRecursion_err {α : Type} (r : PyM α) (e : PyErr) (h : guardRecursion r = .error e) :
+    (r = .error e ∧ e ≠ .recursion) ∨ (r = .error .recursion ∧ e = .value) := by
+  unfold guardRecursion at h
+  cases r with
+  | ok x => simp at h
+  | error e' => cases e' <;> simp at h <;> subst h <;> simp
+
+def ofRawTop (raw : Raw) : PyM Requirement := guardRecursion (ofRaw raw)
+
+def parseLTop (cs : List Char) : PyM Requirement := guardRecursion (parseL cs)
+
+/-- `Requirement(requirement_string)` (public behaviour) -/
+def parseTop (text : String) : PyM Requirement := parseLTop text.toList
+
+theorem parseTop_ok_iff (text : String) (r : Requirement) : parseTop text = .ok r ↔ parse text = .ok r :=
+  guardRecursion_ok_iff _ r
+
 /-! ### structural dump for the line protocol -/
 
 def optStr : Option String → String
